@@ -462,6 +462,7 @@ func (w *World) exchangeNoNotify(entity Entity, add []ID, rem []ID, relation ID,
 
 	arch := w.findOrCreateArchetype(oldArch, add, rem, target)
 	newIndex := arch.Alloc(entity)
+	verifPoint(2)
 
 	for _, id := range oldIDs {
 		if mask.Get(id) {
@@ -735,6 +736,7 @@ func (w *World) setRelation(entity Entity, comp ID, target Entity) {
 	}
 
 	newIndex := arch.Alloc(entity)
+	verifPoint(3)
 	for _, id := range oldArch.node.Ids {
 		comp := oldArch.Get(index.index, id)
 		arch.SetPointer(newIndex, id, comp)
